@@ -1,6 +1,7 @@
 package interp
 
 import (
+	"os"
 	"fmt"
 	"go/token"
 	"go/types"
@@ -20,16 +21,28 @@ const (
 // lookupExternal finds an intrinsic for fn: exact name first, then generic
 // instantiations by their origin's name.
 func lookupExternal(fn *ssa.Function, name string) externalFn {
+	if os.Getenv("VERIF_DEBUG_EXT") != "" && strings.Contains(name, "terator") {
+		fmt.Fprintln(os.Stderr, "EXT?", name)
+	}
 	if ext := externals[name]; ext != nil {
 		return ext
 	}
-	if i := strings.IndexByte(name, '['); i >= 0 {
-		// (*pkg.Iterator[string]).Next -> (*pkg.Iterator).Next
-		j := strings.IndexByte(name[i:], ']')
-		if j > 0 {
-			if ext := externals[name[:i]+name[i+j+1:]]; ext != nil {
-				return ext
+	if strings.IndexByte(name, '[') >= 0 {
+		// (*pkg.Iterator[string]).Next[string] -> (*pkg.Iterator).Next
+		var sb strings.Builder
+		depth := 0
+		for _, c := range name {
+			switch {
+			case c == '[':
+				depth++
+			case c == ']':
+				depth--
+			case depth == 0:
+				sb.WriteRune(c)
 			}
+		}
+		if ext := externals[sb.String()]; ext != nil {
+			return ext
 		}
 	}
 	return nil
